@@ -7,6 +7,7 @@ an accepted stream prints `eof:<input bytes consumed>`.
 -/
 import Compress.Util
 import Compress.Brotli.Spec
+import Compress.Brotli.Impl
 
 namespace Compress.Drv
 open Compress.Util Compress
@@ -50,5 +51,24 @@ def handleBtr (kv : List (String × String)) : String :=
     | some tr => hexOfBytes (tr.apply w)
     | none => "bad-transform"
   | _, _ => "bad-line"
+
+def berrName : Option Brotli.Impl.BErr → String
+  | none => "nil" | some .eof => "eof" | some .unexpectedEOF => "ueof"
+  | some .corrupted => "corrupt" | some .invalid => "invalid"
+
+/-- kind `brr`: the Go-shaped model of brotli.Reader driven by a schedule of Read sizes. -/
+def handleBrr (dict : ByteArray) (kv : List (String × String)) : String :=
+  match bytesOfHex (lookupD kv "in" "-") with
+  | some bs =>
+    let sched := ((splitList (lookupD kv "sched" "4096") ',').filterMap parseNat)
+    let (recsRev, _) := Brotli.Impl.runReads dict (Brotli.Impl.readFuel bs) 100000000 (Brotli.Impl.init bs) sched []
+    let recs := recsRev.reverse
+    let recStrs := recs.map fun r => s!"{r.out.length}/{r.inOff}/{r.outOff}"
+    let all := ",".intercalate recStrs
+    let out : Array UInt8 := recs.foldl (fun a r => a ++ r.out.toArray) #[]
+    let cls := berrName (recsRev.head?.bind (·.err))
+    let shown := if recs.length ≤ 48 then all else "-"
+    s!"{shown}:{recs.length}:{hex64 (fnv1a64 all.toUTF8.data)}:{hexOfBytes (out.extract 0 64).toList}:{out.size}:{hex64 (fnv1a64 out)}:{cls}"
+  | none => "bad-line"
 
 end Compress.Drv
